@@ -188,6 +188,14 @@ def run_case(c):
             ss = kb_J * permode * max(1.0, 25.0)
             x_here = (np.abs(use_f).max() * THzToEv / (Kb * T)) if T > 0 else 0.0
             xmax = max(xmax, x_here)
+            # cancellation in log(1 - exp(-x)) at small x (phonopy's form; the oracle uses log1p): relative error ~ eps / x_min
+            if T > 0 and (np.abs(use_f) > 0).any():
+                x_min = max(np.abs(use_f[use_f != 0]).min() * THzToEv / (Kb * T), 1e-300)
+                canc = 64 * np.finfo(float).eps / x_min
+            else:
+                canc = 0.0
+            fs = fs * (1 + canc / 1e-9)
+            ss = ss * (1 + canc / 1e-9)
             f_ = dict(T=float(T), x_max=float(x_here), nan_overflow_regime=bool(x_here > 700), **feat)
             obs["n_points"] = obs.get("n_points", 0) + 1
             for nm, got, want, sc in (("F", F_[i], Fo, fs), ("S", S_[i], So, ss), ("Cv", C_[i], Co, ss)):
